@@ -10,7 +10,7 @@ Local Open Scope Q_scope.
 
 Section Bound.
   Variable m : pomdp.
-  Hypothesis Hwf : wf_pomdp m.
+  Hypothesis Hwf : wf_pomdp1 m.
   Let S := nS (pm m).
 
   Theorem plan_le_EV_lemma : forall older cur i tau, chain_ok m older cur ->
